@@ -20,7 +20,7 @@ na = [{'property_id': pid, 'reason': NOT_APPLICABLE.get(pid, 'check not built ye
 m = {
  'version': 1, 'setup_cmd': './check setup',
  'hooks': {'guard': 'LZ4_VERIF',
-           'enable': 'harnesses compile lib/*.c and programs/*.c from /repo\'s working tree, adding -DLZ4_VERIF only where a hook is needed (HC oracle logging); everything else is observed without source changes (#include of the .c files, LZ4_memcpy overrides, -include sched.h for pthreads, -Wl,--wrap for stdio)',
+           'enable': 'no hook was added to /repo (source_commits is empty; the guard name is reserved): harnesses compile lib/*.c and programs/*.c from /repo\'s working tree and observe them without source changes (#include of the .c files, #define interposition of two LZ4 calls around the #include of lz4frame.c, -include vs_sched.h for pthreads, -Wl,--wrap for stdio); the HC match-finder log comes from an instrumented COPY of lib/lz4hc.c made textually on every run (vlib/core.py instrument_hc)',
            'baseline_off_cmd': 'make -C /repo -k test', 'source_commits': HOOK_COMMITS, 'add_only': True},
  'engines': [
   {'name': 'lean-proof', 'path': 'lean/', 'serves_properties': [c['property_id'] for c in checks], 'kind_free_text': 'Lean 4 theorems over Spec / Gen / Model; Gen regenerated from /repo by translate/gen.py (clang AST) on every run; axioms audited per run'},
